@@ -24,7 +24,8 @@ def reencode(text, seg_t, ele_t, sub_t, eol='', rep_t=None):
                     vals[10] = rep_t
             out.append(ele_t.join(['ISA'] + vals) + seg_t)
         else:
-            out.append(ele_t.join([p.sid] + [sub_t.join(c) for c in p.elements]) + seg_t)
+            lead = p.lead if not any(t in p.lead for t in (seg_t, ele_t, sub_t)) else ' '
+            out.append(lead + ele_t.join([p.sid] + [sub_t.join(c) for c in p.elements]) + seg_t)
     return eol.join(out) + eol
 
 
